@@ -266,10 +266,13 @@ func (g *sgen) schema(depth int) map[string]interface{} {
 	}
 	if want("object", 20) && depth > 0 {
 		d := map[string]interface{}{}
-		if g.p(50) {
-			d[g.pick(namePool)] = g.schema(depth - 1)
-		} else {
-			d[g.pick(namePool)] = []interface{}{g.pick(namePool)}
+		n := 1 + g.rng.Intn(3) // several entries, of both kinds: each present key is judged by its own entry
+		for i := 0; i < n; i++ {
+			if g.p(50) {
+				d[g.pick(namePool)] = g.schema(depth - 1)
+			} else {
+				d[g.pick(namePool)] = []interface{}{g.pick(namePool)}
+			}
 		}
 		s["dependencies"] = d
 	}
